@@ -140,6 +140,45 @@ def posc_history(which="default"):
     return db, events
 
 
+def suite_history(bd):
+    """The registry histories of the repository's own test-suite: the suite is run (from BARRIL_SRC's tree) with the recording plugin
+    harness/plugins/verif_suite_trace.py; identical histories (every default POSC fill) are validated once."""
+    import hashlib
+    import json
+    import subprocess
+    import sys
+
+    src = os.environ.get("BARRIL_SRC", "/repo/src")
+    root = os.path.dirname(os.path.abspath(src))
+    out = os.path.join(bd, "suite-trace.ndjson")
+    for f in (out, out + ".meta"):
+        if os.path.exists(f):
+            os.remove(f)
+    env = dict(os.environ, BARRIL_VERIF="1", VERIF_SUITE_TRACE=out,
+               PYTHONPATH=os.pathsep.join([os.path.join(common.VERIF, "harness", "plugins"), src]), PYTHONDONTWRITEBYTECODE="1")
+    r = subprocess.run([sys.executable, "-B", "-m", "pytest", "-q", "-p", "no:cacheprovider", "-p", "verif_suite_trace", "--timeout=900", "-x", "-q",
+                        os.path.join(src, "barril")], cwd=root, env=env, capture_output=True, text=True, timeout=1800)
+    if not os.path.exists(out):
+        raise common.MachineryError("the recording run of the test-suite wrote no trace: %s" % (r.stdout[-400:] + r.stderr[-400:]))
+    meta = json.load(open(out + ".meta"))
+    by_tid = {}
+    for line in open(out):
+        e = json.loads(line)
+        by_tid.setdefault(e["tid"], []).append(e)
+    seen = {}
+    events = []
+    for tid, evs in by_tid.items():
+        h = hashlib.sha1(json.dumps([(e["op"], e["a"], e["out"]) for e in evs], sort_keys=True).encode()).hexdigest()
+        if h in seen:
+            seen[h] += 1
+            continue
+        seen[h] = 1
+        events.extend(evs)
+    info = {"suite_tail": r.stdout.strip().splitlines()[-1] if r.stdout.strip() else "", "instances": meta["histories"], "recorded_histories": len(by_tid),
+            "distinct_histories": len(seen), "dropped": meta["dropped"], "events": len(events)}
+    return events, info
+
+
 def validate(rep, bd, events, name, tag):
     lib = common.write_data_module(os.path.join(bd, "lib-" + tag), "RegTraceData",
                                    {"LegacyData": [list(p) for p in __import__("barril.units.unit_database", fromlist=["x"])._LEGACY_TO_CURRENT],
